@@ -68,6 +68,9 @@ type Letter struct {
 	GetNI  string
 	GetK   int
 	GetAFT spb.AFTType
+	// Cut (kOps only): the stream is aborted with this code right after the request was sent, before the
+	// server has processed it (a cut in the middle of a request instead of between messages).
+	Cut codes.Code
 }
 
 // OpT is an operation template inside a kOps letter.
@@ -144,6 +147,8 @@ type world struct {
 	fold  *ribx.Model
 	fails []mc.Fail
 	gets  int
+	// wedged: the probe found the server blocked; nothing that takes server locks may be called any more
+	wedged bool
 }
 
 func (w *world) bad(sig, format string, a ...any) {
@@ -437,6 +442,32 @@ func (w *world) step(l Letter, check bool) {
 		return
 	}
 	s.msgs++
+	if l.K == kOps && l.Cut != codes.OK {
+		s.st.Abort(l.Cut)
+		rt.Quiesce()
+		w.drain()
+		s.ended = true
+		w.sessionGone(l.S)
+		afterCut := w.snapshot(l.S)
+		if check {
+			if before.elec != afterCut.elec {
+				w.bad("C10/disconnect-changed-state/election", "%s: the election state changed: %s -> %s", l.Name, before.elec, afterCut.elec)
+			}
+			if _, still := w.srv.VerifSessions()[s.sid]; still {
+				w.bad("C10/session-not-removed-after-disconnect", "%s: session %s is still in the session table", l.Name, s.sid)
+			}
+			if w.o.Checks.Disconnect {
+				w.probe(l.Name)
+			}
+		}
+		// the operations in flight may or may not have been applied before the cut: resynchronise the fold
+		if !w.wedged {
+			if m, err := ribx.Snapshot(w.srv.VerifRIB()); err == nil {
+				w.fold = m
+			}
+		}
+		return
+	}
 	rt.Quiesce()
 	w.drain()
 	after := w.snapshot(l.S)
@@ -777,6 +808,7 @@ func (w *world) probe(after string) {
 	cd := rt.SelRecv(sel, done)
 	if sel.Wait() != 0 {
 		w.bad("C10/server-wedged-after-disconnect", "after %s a fresh session could not complete negotiate / election / ADD / Get / Flush: the probe is blocked forever", after)
+		w.wedged = true
 		return
 	}
 	if msg := cd.Val(); msg != "" {
@@ -875,7 +907,9 @@ func Execute(o *Options, hist []int) (string, []mc.Fail) {
 		for i, li := range hist {
 			w.step(o.Letters[li], i == len(hist)-1)
 		}
-		canon = w.canon()
+		if !w.wedged {
+			canon = w.canon()
+		}
 	})
 	var fails []mc.Fail
 	if w != nil {
